@@ -42,7 +42,12 @@ class Q:
 
 
 def _a(env, key, dtype=float):
-    return np.array(env[key], dtype=dtype)
+    """Array view of an environment entry; an ndarray of the right dtype is passed through as the same object (C19 relies on
+    the library receiving the pooled objects themselves)."""
+    x = env[key]
+    if isinstance(x, np.ndarray) and x.dtype == np.dtype(dtype):
+        return x
+    return np.array(x, dtype=dtype)
 
 
 INDEXED = [
